@@ -251,6 +251,54 @@ def gen_nullable(rng, d):
     return ("?", gen_nullable(rng, d - 1))
 
 
+# ---------------------------------------------------------------- result rewriters (RetProcs) and runtime errors
+def _hexs(x):
+    return x.encode().hex()
+
+
+RP_CONTEXTS = [
+    'doc = +num\nnum = INT\n', 'doc = *num\nnum = INT\n', 'doc = num % ","\nnum = INT\n', 'doc = num num num\nnum = INT\n',
+    'doc = ?num num num\nnum = INT\n', 'doc = +(num | IDENT)\nnum = INT\n', 'doc = +item\nitem = num | "(" +num ")"\nnum = INT\n',
+    'doc = +num IDENT\nnum = INT\n', 'doc = (num num | num IDENT) *num\nnum = INT\n', 'doc = +(num "," | num)\nnum = INT\n',
+    'doc = +(IDENT ++ num)\nnum = STRING\n', 'doc = +(+num ",")\nnum = INT\n', 'doc = +outer\nouter = num\nnum = INT\n',
+]
+RP_INPUTS = ["1 2 3", "0 1 2", "1 0 3", "1 2 0 3", "1 2 0", "7 ( 5 0 ) 9", "1 , 0 , 3", "1 , 2 , 0 ,", "0", "", "1 a 0 b", "1 0 a",
+             'a"1" b"0" c"2"', 'a"0" b"1"']
+
+
+def retproc_family():
+    """(grammar, input, retprocs): a rewriter on `num` rejecting the literal 0 (runtime error / ordinary error) or
+    rewriting, the rejected element first / second / later / last / nested, in every repetition-like context"""
+    out = []
+    for g in RP_CONTEXTS:
+        zero = '"0"' if "STRING" in g else "0"
+        for kind in ("rejdyn:" + _hexs(zero), "rejerr:" + _hexs(zero), "wrap", "id"):
+            for extra in ("", ",doc=wrap"):
+                if extra and not kind.startswith("rej"):
+                    continue
+                for t in RP_INPUTS:
+                    out.append((g.encode(), t.encode(), "num=" + kind + extra))
+    return out
+
+
+RP_LITS = ["1", "42", "a", "x", "if", '"s"', "`r`", "foo", "1.5"]
+
+
+def gen_retprocs(rng, rules):
+    items = []
+    for n, _ in rules:
+        k = rng.below(6)
+        if k == 0:
+            items.append("%s=rejdyn:%s" % (n, _hexs(rng.choice(RP_LITS))))
+        elif k == 1:
+            items.append("%s=rejerr:%s" % (n, _hexs(rng.choice(RP_LITS))))
+        elif k == 2:
+            items.append("%s=wrap" % n)
+        elif k == 3:
+            items.append("%s=id" % n)
+    return ",".join(items) or "-"
+
+
 # ---------------------------------------------------------------- python reference (README semantics)
 class Loop(Exception):
     pass
@@ -457,7 +505,8 @@ def run_pipeline(ctx, cases, watchdog="4s", always_run=()):
     on the implementation whatever the model says (they come first, each protected by the watchdog)."""
     model = ctx.model("tplm")
     impl = ctx.harness("tplm")
-    inp = "".join("%s\t%s\n" % (g.hex(), t.hex()) for g, t in cases)
+    cases = [(c[0], c[1], c[2] if len(c) > 2 else "-") for c in cases]
+    inp = "".join("%s\t%s\t%s\n" % (g.hex(), t.hex(), r) for g, t, r in cases)
     rc, out = ctx.run([impl, "-mode", "scan"], input=inp)
     if rc != 0:
         ctx.broken("correspondence(tplm:scan)", "rc=%d %s" % (rc, out[-300:]))
@@ -481,7 +530,7 @@ def run_pipeline(ctx, cases, watchdog="4s", always_run=()):
     while pos < len(todo):
         batch = todo[pos:]
         rc, out3 = ctx.run([impl, "-mode", "match", "-watchdog", watchdog],
-                           input="".join("%s\t%s\n" % (cases[i][0].hex(), cases[i][1].hex()) for i in batch))
+                           input="".join("%s\t%s\t%s\n" % (cases[i][0].hex(), cases[i][1].hex(), cases[i][2]) for i in batch))
         lines = [l for l in out3.split("\n") if l]
         for j, l in enumerate(lines[:len(batch)]):
             rows[batch[j]] = l.split("\t")
@@ -502,5 +551,5 @@ def run_pipeline(ctx, cases, watchdog="4s", always_run=()):
     return mlines, mout, rows
 
 
-def key_of(g, t):
-    return "tpl:" + sha(g + b"\x00" + t)
+def key_of(g, t, rps="-"):
+    return "tpl:" + sha(g + b"\x00" + t + (b"" if rps in ("", "-") else b"\x00" + rps.encode()))
